@@ -970,7 +970,24 @@ def b_push(I, callee, args, st, n, fidx):
 @prim("bit_vec::BitVec::pop")
 def b_pop(I, callee, args, st, n, fidx):
     if is_obj(args[0], "pending_stat_stack"):
-        I.emit(st, "pending", n, op="pop", value=None)
+        # is the pop dominated by a test that leaves at least one frame?  (len > 1, len >= 2, 1 < len ...)
+        k = sum(1 for e in st.events if e.kind == "pending" and e.op in ("push", "pop"))
+        lt = Term("pending_len", (Const("int", k),), "usize")
+        guarded = False
+        for cmp_, a, b, want in (("bin:Gt", lt, Const("int", 1), True), ("bin:Ge", lt, Const("int", 2), True),
+                                 ("bin:Lt", Const("int", 1), lt, True), ("bin:Le", Const("int", 2), lt, True),
+                                 ("bin:Le", lt, Const("int", 1), False), ("bin:Lt", lt, Const("int", 2), False)):
+            f = st.bfacts.get(("b", Term(cmp_, (a, b), "bool").key()))
+            if f is want:
+                guarded = True
+        # a frame pushed earlier on the same path also leaves the bottom frame in place
+        depth = 0
+        for e in st.events:
+            if e.kind == "pending" and e.op == "push":
+                depth += 1
+            elif e.kind == "pending" and e.op == "pop":
+                depth -= 1
+        I.emit(st, "pending", n, op="pop", value=None, guarded=guarded or depth >= 1)
         return val(st.sym("pending_pop"), st)
     return val(st.sym("bv_pop"), st)
 
